@@ -33,6 +33,9 @@ class Registration(Stream):
             cfg = proc.default_cfg(r if i else None, counts=[2, 0, 0, 0, 0])
             # the operator's algorithm priority lists (any AMF choice): the UE is told to use the first one it advertises
             cfg["int_priority"], cfg["enc_priority"] = [[2, 1, 0], [1, 2, 0], [0, 2, 1], [3, 1, 2]][i % 4][:], [[0, 1, 2], [2, 1, 0], [1, 0, 2], [3, 2, 0]][i % 4][:]
+            # which downlink NAS transports get which optional IEs (TS 38.413 9.2.5.2): every phase of the reference AMF's cycle,
+            # so that the long ones (150-character Old AMF name, 8-slice Allowed NSSAI) fall on each message of the exchange in some run
+            cfg["dlnas_phase"] = i % 8
             if i % 4 == 2:
                 cfg["int_priority"] = [2, 0, 1]       # NIA0 first would select null integrity for a UE that advertised it
             if i % 8 in (2, 5):  # both ends of the gNB ID size range (22..32 bits)
